@@ -10,6 +10,10 @@ theorem takeBytes_append (s r : Bytes) : takeBytes s.length (s ++ r) = some (s, 
 
 theorem rd8_u8_cons (n : Nat) (r : Bytes) (h : n < 256) : rd8 (u8 n :: r) = some (n, r) := rd8_u8 n r h
 
+theorem isCode_lt {n : Nat} (h : isCode n = true) : n < 128 := by
+  simp only [isCode, Bool.or_eq_true, beq_iff_eq] at h
+  omega
+
 theorem tag_lt (v : TVal) : v.tag < 256 := by cases v <;> simp [TVal.tag]
 theorem tag_pos (v : TVal) : v.tag ≠ 0 := by cases v <;> simp [TVal.tag]
 
@@ -59,6 +63,10 @@ theorem parse_ser : ∀ (v : TVal) (fuel : Nat) (r : Bytes), wf v = true → dep
   | .map kt vt es, fuel + 1, r, hw, hd => by
     simp only [wf, Bool.and_eq_true, decide_eq_true_eq] at hw
     obtain ⟨⟨⟨hk, hv⟩, hn⟩, he⟩ := hw
+    have hk := isCode_lt hk
+    have hv := isCode_lt hv
+    have hk : kt < 256 := by omega
+    have hv : vt < 256 := by omega
     simp only [depth] at hd
     have h32 : es.length < 4294967296 := by omega
     have hn' : ¬ es.length ≥ 2147483648 := by omega
@@ -69,6 +77,8 @@ theorem parse_ser : ∀ (v : TVal) (fuel : Nat) (r : Bytes), wf v = true → dep
   | .set et xs, fuel + 1, r, hw, hd => by
     simp only [wf, Bool.and_eq_true, decide_eq_true_eq] at hw
     obtain ⟨⟨he, hn⟩, hl⟩ := hw
+    have he := isCode_lt he
+    have he : et < 256 := by omega
     simp only [depth] at hd
     have h32 : xs.length < 4294967296 := by omega
     have hn' : ¬ xs.length ≥ 2147483648 := by omega
@@ -78,6 +88,8 @@ theorem parse_ser : ∀ (v : TVal) (fuel : Nat) (r : Bytes), wf v = true → dep
   | .list et xs, fuel + 1, r, hw, hd => by
     simp only [wf, Bool.and_eq_true, decide_eq_true_eq] at hw
     obtain ⟨⟨he, hn⟩, hl⟩ := hw
+    have he := isCode_lt he
+    have he : et < 256 := by omega
     simp only [depth] at hd
     have h32 : xs.length < 4294967296 := by omega
     have hn' : ¬ xs.length ≥ 2147483648 := by omega
